@@ -82,7 +82,7 @@ static bool body(int idx) {
 
 static void wlTimed() {
   // heap-allocated and never freed: detached invocations may outlive this function
-  std::vector<TaskRec>& recs = *new std::vector<TaskRec>();
+  std::vector<TaskRec>& recs = immortal<std::vector<TaskRec>>();
   g_recs = &recs;
   int nThreads = range(1, 3);
   int nTasks = range(1, 3);
